@@ -12,8 +12,17 @@ TYPES = [0, 1, 2, 3, 0x81, 0x82, 0x83]
 BLENS = [248, 249, 250, 251, 252, 253, 254, 255, 256, 300, 65535, 65536, 70000]
 
 
+def exact_len_script(rng, total):
+    """a script of exactly `total` encoded bytes: one push + OP_DROP OP_1"""
+    body = total - 2
+    ln = body - (1 if body - 1 <= 75 else 2 if body - 2 <= 255 else 3 if body - 3 <= 65535 else 5)
+    return [G.rbytes(rng, ln).hex(), 'OP_DROP', 'OP_1']
+
+
 def spk(rng, names):
     r = rng.random()
+    if r < 0.12:
+        return exact_len_script(rng, rng.choice([252, 253, 254, 65534, 65535, 65536, 65537] + [v for v in G.source_literals() if v >= 80]))
     if r < 0.5: return ['OP_1', G.rbytes(rng, 32).hex()]
     if r < 0.7: return G.std_script(rng, names)
     if r < 0.9: return [G.rbytes(rng, rng.choice(BLENS)).hex()]
@@ -29,7 +38,8 @@ def cases(ctx):
         tx = G.gen_tx(rng, names, kind=rng.choice(['segwit', 'segwit', 'mixed', 'legacy']), max_in=8, max_out=8, min_out=1, big=False)
         if rng.random() < 0.3:
             k = rng.randrange(len(tx.outputs))
-            tx.outputs[k] = TxOutput(tx.outputs[k].amount, Script([G.rbytes(rng, rng.choice(BLENS)).hex()]))
+            tx.outputs[k] = TxOutput(tx.outputs[k].amount, Script([G.rbytes(rng, rng.choice(BLENS)).hex()] if rng.random() < 0.5 else
+                                                                  exact_len_script(rng, rng.choice([252, 253, 254, 65534, 65535, 65536, 65537]))))
         line = tx_to_line(tx)
         n = len(tx.inputs)
         spks = [spk(rng, names) for _ in range(n)]
@@ -39,6 +49,7 @@ def cases(ctx):
         for i in idxs:
             ext = rng.randrange(2)
             leaf = [G.rbytes(rng, 32).hex(), 'OP_CHECKSIG'] if rng.random() < 0.6 else [G.rbytes(rng, rng.choice([1, 75, 76] + BLENS)).hex()]
+            if rng.random() < 0.15: leaf = exact_len_script(rng, rng.choice([252, 253, 254, 65534, 65535, 65536, 65537]))
             if ext == 0 and rng.random() < 0.7: leaf = []
             hts = TYPES if rng.random() < 0.5 else [rng.choice(TYPES)]
             for ht in hts:
